@@ -1,26 +1,11 @@
-import GoSQLXModel.Model.Lex
+import GoSQLXModel.Model.LexGen
 import GoSQLXModel.Driver.GoClass
 import GoSQLXModel.Driver.LspOp
-import GoSQLXModel.Gen.LexTables
-import GoSQLXModel.Gen.Limits
 /-! Driver op `lex`: payload = hex of the input bytes →
     `OK <tok> <tok> …|<comment> …` or `ERR <code> <line> <col>`;
     tok = `ty:hexvalue:quote:sl.sc.el.ec`, comment = `block:hextext:sl.sc.el.ec:inline`. -/
 namespace GoSQLXModel.Driver
 open GoSQLXModel.Lex
-
-def strBytes (s : String) : Bytes := s.toUTF8.toList
-
-def genLexTables : Tables :=
-  { keywords := Gen.Lex.keywordTypes.map fun e => (strBytes e.1, e.2)
-    compoundStarts := Gen.Lex.compoundStarts.map strBytes
-    compoundTypes := Gen.Lex.compoundTypes.map fun e => (strBytes e.1, e.2)
-    operators := Gen.Lex.operators.map fun e => (strBytes e.1, e.2)
-    ttIdentifier := Gen.Lex.ttIdentifier, ttNumber := Gen.Lex.ttNumber, ttPlaceholder := Gen.Lex.ttPlaceholder
-    ttSingle := Gen.Lex.ttSingleQuotedString, ttDouble := Gen.Lex.ttDoubleQuotedString, ttString := Gen.Lex.ttString
-    ttTripleSingle := Gen.Lex.ttTripleSingleQuotedString, ttTripleDouble := Gen.Lex.ttTripleDoubleQuotedString
-    ttDollar := Gen.Lex.ttDollarQuotedString
-    maxTokens := Gen.limitMaxTokens, maxInput := Gen.limitMaxInputSize }
 
 def hexBytes (bs : Bytes) : String := toHex (ByteArray.mk bs.toArray)
 
